@@ -280,6 +280,62 @@ func c19units(tier string) []mc.Unit {
 			r.Bound("sweep", fmt.Sprintf("%d lengths (every length to %d, then +7%% steps to %d) x about 20 shapes x 80 grid points", len(lens), tier2(tier, 300, 500), lens[len(lens)-1]))
 		}})
 	}
+	// concentrations over many orders of magnitude: each of oligo, sodium and magnesium in turn takes every decade
+	// from 1e-12 to 1 (and the half-decades between), the others staying at the default conditions
+	us = append(us, mc.Unit{Name: "concentration-decades", Weight: 30, Run: func(r *mc.Recorder) {
+		var cnt, nt int64
+		var grid []float64
+		for e := -12; e <= 0; e++ {
+			grid = append(grid, math.Pow(10, float64(e)), 3*math.Pow(10, float64(e)))
+		}
+		for _, in := range []string{"ACGTAGCTAGCATCGATC", "GCGCGCGC", "ATATATATATAT", "acgtacgtacgtacgtacgtaaa", "GGGGCCCC", "AT"} {
+			up := strings.ToUpper(in)
+			for which := 0; which < 3; which++ {
+				prev, prevOK := 0.0, false
+				for _, v := range grid {
+					o, na, mg := 500e-9, 50e-3, 0.0
+					switch which {
+					case 0:
+						o = v
+					case 1:
+						na = v
+					case 2:
+						mg = v
+					}
+					var tm, dh, ds float64
+					cs := fmt.Sprintf("%s oligo=%g Na=%g Mg=%g", in, o, na, mg)
+					if p := catch(func() { tm, dh, ds = primers.SantaLucia(in, o, na, mg) }); p != "" {
+						r.Failf("no-panic", cs, []string{"decades"}, "values", "panic: "+p)
+						continue
+					}
+					cnt++
+					wtm, wdh, wds, f := nnOracle(up, o, na, mg)
+					if !near(dh, wdh) {
+						r.Failf("enthalpy", cs, []string{"decades"}, fmt.Sprint(wdh), fmt.Sprint(dh))
+					}
+					if !near(ds, wds) {
+						r.Failf("entropy", cs, []string{"decades"}, fmt.Sprint(wds), fmt.Sprint(ds))
+					}
+					if !near(tm, wtm) {
+						r.Failf("melting-temperature", cs, []string{"decades"}, fmt.Sprint(wtm), fmt.Sprint(tm))
+					}
+					reg := wdh < 0 && wds+nnR*math.Log(o/f) < 0
+					if reg && prevOK {
+						nt++
+						if !(tm > prev) {
+							r.Failf("monotone-"+[]string{"oligo", "sodium", "magnesium"}[which], cs, []string{"decades"}, fmt.Sprintf("Tm above %g (the value one step lower)", prev), fmt.Sprint(tm))
+						}
+					}
+					prev, prevOK = tm, reg
+				}
+			}
+		}
+		r.Eval(cnt)
+		r.AddStates(cnt)
+		r.AddTransitions(cnt)
+		r.AddNontrivial(nt)
+		r.Bound("concentration-decades", "6 oligos x each of the three concentrations over 26 values from 1e-12 to 3 (others at the default conditions)")
+	}})
 	// case masks
 	us = append(us, mc.Unit{Name: "case", Weight: 200, Run: func(r *mc.Recorder) {
 		var cnt, nt, seqs int64
